@@ -7,7 +7,7 @@ Clauses of the property and the theorems stating them:
       step, and the values the kernels compute are the values of that loop          C23_range_len, C23_range_values
   (b) ... (see below)
 -/
-import OccaProofs.Lemmas.FunctionalLoops
+import OccaProofs.Lemmas.FunctionalReduce
 
 namespace Occa.Functional.C23
 open Occa Occa.Gen Occa.Functional
@@ -113,5 +113,377 @@ theorem C23_range_len (s e st : Int) (hs : Fits s) (he : Fits e) (hst : Fits st)
 
 example : Fits 2 ∧ Fits 10 ∧ Fits 3 ∧ (3 : Int) ≠ 0 ∧ rangeLength 2 10 3 = 3 := by
   refine ⟨?_, ?_, ?_, ?_, ?_⟩ <;> decide
+
+
+/-- the kernels' values `start + step * i`, `i < length`, are the values of the sequential loop -/
+theorem C23_range_values (r : Range) (hs : Fits r.start) (he : Fits r.stop) (hst : Fits r.step) (h0 : r.step ≠ 0) :
+    r.values = r.seq := by
+  unfold Range.values Range.seq Range.length Range.value
+  rw [C23_range_len r.start r.stop r.step hs he hst h0, Int.toNat_natCast]
+  by_cases hp : r.step > 0
+  · rw [forVals_up _ _ _ hp]; simp
+  · have hn : r.step < 0 := by omega
+    rw [forVals_down _ _ _ hn]; simp
+
+/-- every constructor of occa::range yields a non-zero step -/
+theorem C23_range_ctor_step (a b c : Int) :
+    (Range.mk1 a).step ≠ 0 ∧ (Range.mk2 a b).step ≠ 0 ∧ (Range.mk3 a b c).step ≠ 0 := by
+  refine ⟨?_, ?_, ?_⟩
+  · unfold Range.mk1; simp only; split <;> decide
+  · unfold Range.mk2; simp only; split <;> decide
+  · unfold Range.mk3; simp only; split
+    · assumption
+    · decide
+
+example : (Range.mk3 10 0 (-3)).values = [10, 7, 4, 1] ∧ (Range.mk3 10 0 (-3)).seq = [10, 7, 4, 1] := by decide
+
+/-! ### (b) the tiled map loop visits every index exactly once -/
+
+/-- With the in-tile bound spanning the whole block step, the Serial order of the tiled map loop is
+    `0, 1, …, len-1`: every index, each once, for every length, tile size and tile iteration count. -/
+theorem C23_map_cover (len ts ti : Int) (hl : 0 ≤ len) (hts : 1 ≤ ts) (hti : 1 ≤ ti) :
+    mapIndicesP true len ts ti = forVals 0 len 1 := by
+  unfold mapIndicesP
+  simp only [if_true]
+  have hm : 0 ≤ ts * ti := Int.mul_nonneg (by omega) (by omega)
+  have hT : 0 < ts * ti * ti := by
+    have h1 : 1 ≤ ts * ti := by
+      have := Int.mul_le_mul (show 1 ≤ ts from hts) (show 1 ≤ ti from hti) (by omega) (by omega)
+      omega
+    have := Int.mul_le_mul h1 (show 1 ≤ ti from hti) (by omega) (by omega)
+    omega
+  have inner : ∀ blk : Int,
+      ((forVals blk (blk + ts * ti * ti) ti).flatMap fun tile =>
+        (forVals tile (tile + ti) 1).filter fun i => decide (i < len)) =
+      (forVals blk (blk + ts * ti * ti) 1).filter fun i => decide (i < len) := by
+    intro blk
+    rw [← filter_flatMap']
+    have := chunk_flatMap ti (by omega) (ts * ti).toNat blk
+    rw [Int.toNat_of_nonneg hm] at this
+    rw [this]
+  simp only [inner]
+  rw [← filter_flatMap']
+  -- the blocks: k = ceil(len / T) of them, covering [0, k*T) ⊇ [0, len)
+  have hq : 0 ≤ (len - 0 + ts * ti * ti - 1) / (ts * ti * ti) := Int.ediv_nonneg (by omega) (by omega)
+  have hk : ((upCount 0 len (ts * ti * ti) : Nat) : Int) = (len - 0 + ts * ti * ti - 1) / (ts * ti * ti) := by
+    unfold upCount; omega
+  have hcover : len ≤ (upCount 0 len (ts * ti * ti) : Int) * (ts * ti * ti) := by
+    rw [hk]
+    have h1 := Int.mul_ediv_add_emod (len - 0 + ts * ti * ti - 1) (ts * ti * ti)
+    have h2 := Int.emod_lt_of_pos (len - 0 + ts * ti * ti - 1) hT
+    rw [Int.mul_comm] at h1
+    omega
+  have hcount : upCount 0 (0 + (upCount 0 len (ts * ti * ti) : Int) * (ts * ti * ti)) (ts * ti * ti)
+      = upCount 0 len (ts * ti * ti) := by
+    generalize upCount 0 len (ts * ti * ti) = k
+    unfold upCount
+    have e : 0 + (k : Int) * (ts * ti * ti) - 0 + ts * ti * ti - 1 = (ts * ti * ti - 1) + (k : Int) * (ts * ti * ti) := by omega
+    rw [e, Int.add_mul_ediv_right _ _ (Int.ne_of_gt hT), Int.ediv_eq_zero_of_lt (by omega) (by omega)]
+    omega
+  rw [forVals_congr_count 0 len _ (ts * ti * ti) hT hcount.symm, chunk_flatMap (ts * ti * ti) hT _ 0,
+    filter_lt_forVals_one 0 _ len hl (by omega)]
+
+/-- … as a statement about multisets (any execution order of the OpenMP outer loop): a permutation of
+    `0 .. len-1` without repetition -/
+theorem C23_map_cover_perm (len : Nat) (ts ti : Int) (hts : 1 ≤ ts) (hti : 1 ≤ ti) :
+    (mapIndicesP true len ts ti).Perm ((List.range len).map Int.ofNat) ∧ (mapIndicesP true len ts ti).Nodup := by
+  have h := C23_map_cover len ts ti (by omega) hts hti
+  have e : forVals 0 (len : Int) 1 = (List.range len).map Int.ofNat := by
+    rw [forVals_one]
+    simp only [Int.sub_zero, Int.toNat_natCast]
+    apply List.map_congr_left
+    intro i _
+    simp
+  rw [h, e]
+  refine ⟨List.Perm.refl _, ?_⟩
+  unfold List.Nodup
+  rw [List.pairwise_map]
+  exact List.Pairwise.imp (fun h hab => h (Int.ofNat.inj hab)) List.nodup_range
+
+example : mapIndicesP true 7 2 3 = [0, 1, 2, 3, 4, 5, 6] := by decide
+
+/-- the statement for the loop nest as @tile produces it today -/
+def C23_map_cover_full : Prop :=
+  ∀ len ts ti : Int, 0 ≤ len → 1 ≤ ts → 1 ≤ ti → mapIndicesP false len ts ti = forVals 0 len 1
+
+/-- F25: the in-tile bound ignores the step, so with 2 tile iterations the indices [4,8), [12,16) are skipped -/
+theorem C23_map_cover_full_fails : ¬ C23_map_cover_full := by
+  intro h
+  have := h 20 2 2 (by decide) (by decide) (by decide)
+  revert this
+  decide
+
+/-- the strongest true restriction for the present @tile: one tile iteration -/
+theorem C23_map_cover_partial (len ts : Int) (hl : 0 ≤ len) (hts : 1 ≤ ts) :
+    mapIndicesP false len ts 1 = forVals 0 len 1 := by
+  have h := C23_map_cover len ts 1 hl hts (by decide)
+  unfold mapIndicesP at *
+  simpa using h
+
+example : mapIndicesP false 20 2 2 = [0, 1, 2, 3, 8, 9, 10, 11, 16, 17, 18, 19] := by decide
+
+/-- tie: the loop nest printed by the OKL translator for the current tree is the hand-written one
+    (with the in-tile bound the translator produces now) -/
+theorem C23_map_gen_eq (len ts ti : Int) :
+    mapIndicesGen len ts ti = mapIndicesP tileInnerScaled len ts ti := by
+  simp only [mapIndicesGen, mapIndicesP, mapBlockInit, mapBlockBound, mapBlockStep, mapTileInit, mapTileBound,
+    mapTileStep, mapInnerInit, mapInnerBound, mapInnerStep, tileInnerScaled, Bool.false_eq_true, if_false, if_true,
+    Int.mul_assoc, Int.mul_comm, Int.mul_left_comm, Int.add_comm]
+
+
+/-! ### (b') what `getMapArrayScope` feeds into the loop nest: the safe tile sizes never trap for a non-empty array -/
+
+private theorem p32 : (2 : Int) ^ 32 = 4294967296 := by decide
+private theorem p31 : (2 : Int) ^ (32 - 1) = 2147483648 := by decide
+
+/-- lengths and tile settings that fit an `int` with room for `length + tileSize` -/
+def FitsInt (x : Int) : Prop := -536870912 ≤ x ∧ x ≤ 536870912
+
+instance (x : Int) : Decidable (FitsInt x) := by unfold FitsInt; infer_instance
+
+private theorem wrapS32_small (x : Int) (h : -2147483648 ≤ x ∧ x < 2147483648) : wrapS 32 x = x := by
+  unfold wrapS
+  rw [p32, p31]
+  omega
+
+/-- for a non-empty array the scope computation divides by a positive number and yields a tile size and a
+    tile iteration count ≥ 1, whatever `setTileSize` was given (also non-positive or huge values) -/
+theorem C23_safe_tile (len ts ti : Int) (hl : 1 ≤ len) (fl : FitsInt len) (fts : FitsInt ts) (fti : FitsInt ti) :
+    1 ≤ mapSafeTileSize len ts ∧ mapSafeTileSize len ts ≤ len ∧ mapTileDivisor len ts ≠ 0 ∧
+    1 ≤ mapSafeTileIterations len ts ti := by
+  unfold FitsInt at *
+  have hs : 1 ≤ mapSafeTileSize len ts ∧ mapSafeTileSize len ts ≤ len := by
+    unfold mapSafeTileSize
+    simp only [decide_eq_true_eq]
+    split <;> split <;> omega
+  refine ⟨hs.1, hs.2, ?_, ?_⟩
+  · unfold mapTileDivisor
+    simp only
+    omega
+  · unfold mapSafeTileIterations
+    simp only
+    generalize mapSafeTileSize len ts = sts at hs
+    have hn : 0 ≤ len + sts - 1 := by omega
+    have hq1 : 1 ≤ (len + sts - 1) / sts := by
+      have : (len + sts - 1) = (len - 1) + 1 * sts := by omega
+      rw [this, Int.add_mul_ediv_right _ _ (by omega)]
+      have : 0 ≤ (len - 1) / sts := Int.ediv_nonneg (by omega) (by omega)
+      omega
+    have hq2 : (len + sts - 1) / sts ≤ len + sts - 1 := Int.ediv_le_self _ hn
+    rw [wrapS32_small (len + sts) (by omega), wrapS32_small (len + sts - 1) (by omega),
+      Int.tdiv_eq_ediv_of_nonneg hn, wrapS32_small _ (by omega)]
+    simp only [decide_eq_true_eq]
+    split <;> split <;> omega
+
+/-- (b) for the whole entry point: whatever tile settings, a non-empty array's map kernel visits
+    `0 .. len-1` in order once @tile scales its inner bound; with the empty-array guard, length 0 visits nothing -/
+theorem C23_map_visit (len ts ti : Int) (hl : 0 ≤ len) (fl : FitsInt len) (fts : FitsInt ts) (fti : FitsInt ti)
+    (hscaled : tileInnerScaled = true) :
+    mapVisit true len ts ti = .ok (forVals 0 len 1) := by
+  unfold mapVisit
+  by_cases h0 : len = 0
+  · subst h0
+    simp [forVals_nil 0 0 1 (by decide) (by omega)]
+  · have hl1 : 1 ≤ len := by omega
+    obtain ⟨a, _, c, d⟩ := C23_safe_tile len ts ti hl1 fl fts fti
+    have e1 : (true && len == 0) = false := by simp [h0]
+    have e2 : (mapTileDivisor len ts == 0) = false := by simp [c]
+    rw [e1, e2]
+    simp only [Bool.false_eq_true, if_false]
+    rw [C23_map_gen_eq, hscaled, C23_map_cover len _ _ hl a d]
+
+/-- the same for the present @tile when no more than one tile iteration is requested -/
+theorem C23_map_visit_partial (len ts ti : Int) (hl : 0 ≤ len) (fl : FitsInt len) (fts : FitsInt ts) (hti : ti ≤ 1)
+    (fti : FitsInt ti) :
+    mapVisit true len ts ti = .ok (forVals 0 len 1) := by
+  unfold mapVisit
+  by_cases h0 : len = 0
+  · subst h0
+    simp [forVals_nil 0 0 1 (by decide) (by omega)]
+  · have hl1 : 1 ≤ len := by omega
+    obtain ⟨a, _, c, d⟩ := C23_safe_tile len ts ti hl1 fl fts fti
+    have e1 : (true && len == 0) = false := by simp [h0]
+    have e2 : (mapTileDivisor len ts == 0) = false := by simp [c]
+    rw [e1, e2]
+    simp only [Bool.false_eq_true, if_false]
+    -- safeTileIterations = min(max(1, ti), …) = 1
+    have hone : mapSafeTileIterations len ts ti = 1 := by
+      have hle : mapSafeTileIterations len ts ti ≤ 1 := by
+        unfold mapSafeTileIterations
+        simp only [decide_eq_true_eq]
+        split <;> split <;> omega
+      omega
+    rw [C23_map_gen_eq, hone]
+    cases tileInnerScaled
+    · exact congrArg Res.ok (C23_map_cover_partial len _ hl a)
+    · exact congrArg Res.ok (C23_map_cover len _ 1 hl a (by decide))
+
+example : mapVisit true 5 1024 3 = .ok [0, 1, 2, 3, 4] ∨ tileInnerScaled = false := by
+  cases h : tileInnerScaled
+  · exact Or.inr rfl
+  · exact Or.inl (by
+      have := C23_map_visit 5 1024 3 (by decide) (by decide) (by decide) (by decide) h
+      rw [this]; decide)
+
+/-- F27 before the repair: without the early return an empty array (or range) divides by `safeTileSize = 0` -/
+theorem C23_empty_traps_without_guard (ts ti : Int) : mapVisit false 0 ts ti = .trap := by
+  unfold mapVisit mapTileDivisor mapSafeTileSize
+  simp only [decide_eq_true_eq]
+  have : (if (0 : Int) < if 1 < ts then ts else 1 then (0 : Int) else if 1 < ts then ts else 1) = 0 := by
+    split <;> split <;> omega
+  simp [this]
+
+
+/-! ### (c) the block-wise reduction equals the sequential fold -/
+
+/-- the 128 index blocks of the Serial/OpenMP reduce kernel are consecutive and cover `0 .. len-1` exactly once -/
+theorem C23_cpu_blocks_cover (len : Int) (hl : 0 ≤ len) : (cpuBlocks len).flatten = forVals 0 len 1 :=
+  cpuBlocks_flatten len hl
+
+/-- ANY partition into consecutive blocks, associative `op` with identity `e`: per-block folds from `e`,
+    combined on the host in block order = the sequential fold (no commutativity needed: the blocks are in order) -/
+theorem C23_reduce_blocks_monoid {β : Type} (op : β → β → β) (e : β)
+    (assoc : ∀ a b c, op (op a b) c = op a (op b c)) (idl : ∀ a, op e a = a) (idr : ∀ a, op a e = a)
+    (blocks : List (List β)) :
+    reduceBlocks op op e blocks = blocks.flatten.foldl op e :=
+  reduceBlocks_monoid op e assoc idl idr blocks
+
+/-- … and for an associative, commutative, idempotent `op` (min, max, and, or) started from ANY value `a`
+    in every block (the code starts from the first element) -/
+theorem C23_reduce_blocks_semilattice {β : Type} (op : β → β → β)
+    (assoc : ∀ a b c, op (op a b) c = op a (op b c)) (comm : ∀ a b, op a b = op b a) (idem : ∀ a, op a a = a)
+    (a : β) (blocks : List (List β)) :
+    reduceBlocks op op a blocks = blocks.flatten.foldl op a :=
+  reduceBlocks_semilattice op assoc comm idem a blocks
+
+/-- the CPU reduction kernel + host loop, for a monoid and a per-element function `g` of the index -/
+theorem C23_cpu_reduce_monoid (op : Int → Int → Int) (e : Int)
+    (assoc : ∀ a b c, op (op a b) c = op a (op b c)) (idl : ∀ a, op e a = a) (idr : ∀ a, op a e = a)
+    (g : Int → Int) (len : Int) (hl : 0 ≤ len) :
+    cpuReduce len e (fun acc i => op acc (g i)) op = ((forVals 0 len 1).map g).foldl op e := by
+  rw [cpuReduce_eq_reduceBlocks, reduceBlocks_map, reduceBlocks_monoid op e assoc idl idr, flatten_map_map,
+    cpuBlocks_flatten len hl]
+
+theorem C23_cpu_reduce_semilattice (op : Int → Int → Int)
+    (assoc : ∀ a b c, op (op a b) c = op a (op b c)) (comm : ∀ a b, op a b = op b a) (idem : ∀ a, op a a = a)
+    (a : Int) (g : Int → Int) (len : Int) (hl : 0 ≤ len) :
+    cpuReduce len a (fun acc i => op acc (g i)) op = ((forVals 0 len 1).map g).foldl op a := by
+  rw [cpuReduce_eq_reduceBlocks, reduceBlocks_map, reduceBlocks_semilattice op assoc comm idem, flatten_map_map,
+    cpuBlocks_flatten len hl]
+
+/-- the built-in reductions over an int array `xs`, exactly as the operation layer of the model calls them -/
+theorem C23_reduce_sum (xs : List Int) (p : Int) :
+    cpuReduce xs.length 0 (redFn 0 0 p xs) (hostComb 0) = xs.foldl (· + ·) 0 := by
+  have h := C23_cpu_reduce_monoid (· + ·) 0 (fun a b c => Int.add_assoc a b c) (fun a => Int.zero_add a)
+    (fun a => Int.add_zero a) (fun i => xs.getD i.toNat 0) xs.length (by omega)
+  rw [map_getD_forVals] at h
+  rw [← h]
+  rfl
+
+theorem C23_reduce_product (xs : List Int) (p : Int) :
+    cpuReduce xs.length 1 (redFn 1 0 p xs) (hostComb 1) = xs.foldl (· * ·) 1 := by
+  have h := C23_cpu_reduce_monoid (· * ·) 1 (fun a b c => Int.mul_assoc a b c) (fun a => Int.one_mul a)
+    (fun a => Int.mul_one a) (fun i => xs.getD i.toNat 0) xs.length (by omega)
+  rw [map_getD_forVals] at h
+  rw [← h]
+  rfl
+
+theorem C23_reduce_min (xs : List Int) (p a : Int) :
+    cpuReduce xs.length a (redFn 7 0 p xs) (hostComb 7) = xs.foldl minI a := by
+  have h := C23_cpu_reduce_semilattice minI (by intro a b c; simp only [minI_eq]; omega)
+    (by intro a b; simp only [minI_eq]; omega) (by intro a; simp only [minI_eq]; omega)
+    a (fun i => xs.getD i.toNat 0) xs.length (by omega)
+  rw [map_getD_forVals] at h
+  rw [← h]
+  rfl
+
+theorem C23_reduce_max (xs : List Int) (p a : Int) :
+    cpuReduce xs.length a (redFn 8 0 p xs) (hostComb 8) = xs.foldl maxI a := by
+  have h := C23_cpu_reduce_semilattice maxI (by intro a b c; simp only [maxI_eq]; omega)
+    (by intro a b; simp only [maxI_eq]; omega) (by intro a; simp only [maxI_eq]; omega)
+    a (fun i => xs.getD i.toNat 0) xs.length (by omega)
+  rw [map_getD_forVals] at h
+  rw [← h]
+  rfl
+
+example : cpuReduce ([3, 1, 4, 1, 5] : List Int).length 0 (redFn 0 0 0 [3, 1, 4, 1, 5]) (hostComb 0) = 14 := by
+  rw [C23_reduce_sum]; rfl
+
+/-- F62 (finding): an initial value that is not the identity is folded into each of the 128 blocks -/
+theorem C23_local_init_counted_per_block :
+    cpuReduce 2 5 (redFn 0 0 0 [1, 2]) (hostComb 0) = 128 * 5 + 3 := by decide +kernel
+
+/-! ### (d) forLoop: the body runs exactly once per index tuple -/
+
+/-- membership: a tuple is visited iff every component is a value of its iteration -/
+theorem C23_forloop_tuples_mem (ds : List (List Int)) :
+    ∀ t : List Int, t ∈ tuples ds ↔ tupleOf t ds := by
+  induction ds with
+  | nil =>
+    intro t
+    simp only [tuples, List.mem_singleton]
+    cases t <;> simp [tupleOf]
+  | cons d ds ih =>
+    intro t
+    simp only [tuples, List.mem_flatMap, List.mem_map]
+    constructor
+    · rintro ⟨x, hx, u, hu, rfl⟩
+      exact ⟨hx, (ih u).mp hu⟩
+    · intro h
+      cases t with
+      | nil => simp [tupleOf] at h
+      | cons x u => exact ⟨x, h.1, u, (ih u).mpr h.2, rfl⟩
+
+/-- number of body executions = product of the iteration lengths -/
+theorem C23_forloop_tuples_length (ds : List (List Int)) :
+    (tuples ds).length = (ds.map List.length).foldr (· * ·) 1 := by
+  induction ds with
+  | nil => rfl
+  | cons d ds ih =>
+    simp only [tuples, List.map_cons, List.foldr_cons]
+    rw [← ih]
+    induction d with
+    | nil => simp
+    | cons x d ihd =>
+      simp only [List.flatMap_cons, List.length_append, List.length_map, List.length_cons, ihd]
+      rw [Nat.add_mul]; omega
+
+/-- each tuple once: if no iteration repeats a value, no tuple is visited twice -/
+theorem C23_forloop_tuples_nodup (ds : List (List Int)) (h : ∀ d ∈ ds, d.Nodup) : (tuples ds).Nodup := by
+  induction ds with
+  | nil => simp [tuples]
+  | cons d ds ih =>
+    have hd : d.Nodup := h d (by simp)
+    have hds : (tuples ds).Nodup := ih (fun d' hd' => h d' (by simp [hd']))
+    simp only [tuples]
+    clear ih h
+    induction d with
+    | nil => simp
+    | cons x d ihd =>
+      rw [List.nodup_cons] at hd
+      simp only [List.flatMap_cons]
+      rw [List.nodup_append]
+      refine ⟨?_, ihd hd.2, ?_⟩
+      · unfold List.Nodup
+        rw [List.pairwise_map]
+        exact List.Pairwise.imp (fun hne heq => hne (List.cons.inj heq).2) hds
+      · intro a ha b hb hab
+        subst hab
+        simp only [List.mem_map] at ha
+        obtain ⟨u, _, rfl⟩ := ha
+        simp only [List.mem_flatMap, List.mem_map] at hb
+        obtain ⟨y, hy, v, _, hv⟩ := hb
+        have : y = x := (List.cons.inj hv).1
+        exact hd.1 (this ▸ hy)
+
+/-- the values of a range iteration in the generated kernel are the values of the sequential loop, for both
+    signs of the step, once the descending loop subtracts the magnitude of the step (repair of F61) -/
+theorem C23_forloop_range_vals (r : Range) : Iter.vals true (.range r) = .ok r.seq := by
+  simp [Iter.vals, Range.seq]
+
+/-- F61 before the repair: a descending range made the generated loop run away -/
+theorem C23_forloop_descending_ran_away : Iter.vals false (.range ⟨5, 0, -1⟩) = .trap := by decide
+
+example : tuples [[0, 1], [5, 3, 1]] = [[0, 5], [0, 3], [0, 1], [1, 5], [1, 3], [1, 1]] := by decide
 
 end Occa.Functional.C23
